@@ -6,6 +6,7 @@ import (
 	"fmt"
 	"os"
 	"os/exec"
+	"reflect"
 	"sort"
 	"strings"
 	"sync"
@@ -200,7 +201,7 @@ func mutateBytes(r *Rng, s string) string {
 }
 
 func runC06(res *Result, tier string, seed int64, replay string) {
-	res.Rule = "(a) writer faults: for every document (fixtures + seeded grammar documents, all leaf kinds) the component tree is rendered into a writer that fails at its k-th WriteString, for EVERY k from 1 to the number of writes: the returned error must be the injected error itself (==), what was written must be exactly the first k-1 writes of the fault-free run, and nothing may be written after the failure; (b) every outcome of every input is classified: HTML / HTML+validation error / error, anything else is a violation; (c) no panic, no hang (2 s deadline, recover): hostile values for every accepted attribute of every component in a legal context, byte-mutated fixtures and generated documents, nesting-depth probes up to 3 000 000 levels in a child process. Non-trivial = case that reaches the renderer or the parser's error path with a distinct input"
+	res.Rule = "(a) writer faults: for every document (fixtures + seeded grammar documents, all leaf kinds) the component tree — the whole document, its body, and every block / column / content component below it rendered on its own (the body buffers its blocks) — is rendered into a writer that fails at its k-th WriteString (once: later writes are accepted and flagged), for EVERY k from 1 to the number of writes: the returned error must be the injected error itself (==), what was written must be exactly the first k-1 writes of the fault-free run, and nothing may be written after the failure; (b) every outcome of every input is classified: HTML / HTML+validation error / error, anything else is a violation; (c) no panic, no hang (2 s deadline, recover): hostile values for every accepted attribute of every component in a legal context, byte-mutated fixtures and generated documents, nesting-depth probes up to 3 000 000 levels in a child process. Non-trivial = case that reaches the renderer or the parser's error path with a distinct input"
 	fixtures := loadFixtures()
 	var docs []struct{ name, src string }
 	if replay != "" {
@@ -210,6 +211,18 @@ func runC06(res *Result, tier string, seed int64, replay string) {
 	} else {
 		for _, f := range fixtures {
 			docs = append(docs, struct{ name, src string }{"fixture:" + f.Name, f.MJML})
+		}
+		// every component and sub-element with a css-class that an inline rule targets (the inlined declarations are written by
+		// separate writes on some elements), once with and once without the rule
+		for hi, head := range []string{`<mj-head><mj-style inline="inline">.ka { background-color: #ffeeee; color: red; }</mj-style></mj-head>`, ``} {
+			docs = append(docs, struct{ name, src string }{fmt.Sprintf("explicit:css-class-everywhere/%d", hi), `<mjml>` + head + `<mj-body><mj-section css-class="ka"><mj-column css-class="ka">` +
+				`<mj-text css-class="ka">t</mj-text><mj-button css-class="ka" href="u">b</mj-button><mj-image css-class="ka" src="i.png"/><mj-divider css-class="ka"/><mj-spacer css-class="ka"/>` +
+				`<mj-table css-class="ka"><tr class="ka"><td>c</td></tr></mj-table>` +
+				`<mj-accordion css-class="ka"><mj-accordion-element css-class="ka"><mj-accordion-title css-class="ka">T</mj-accordion-title><mj-accordion-text css-class="ka">X</mj-accordion-text></mj-accordion-element></mj-accordion>` +
+				`<mj-navbar css-class="ka" hamburger="hamburger"><mj-navbar-link css-class="ka" href="/a">A</mj-navbar-link><mj-raw><i class="ka">r</i></mj-raw></mj-navbar>` +
+				`<mj-social css-class="ka"><mj-social-element css-class="ka" name="facebook" href="h">F</mj-social-element></mj-social>` +
+				`<mj-carousel css-class="ka"><mj-carousel-image css-class="ka" src="a.png"/><mj-carousel-image src="b.png"/></mj-carousel>` +
+				`</mj-column></mj-section><mj-wrapper css-class="ka"><mj-section><mj-group css-class="ka"><mj-column><mj-text>g</mj-text></mj-column></mj-group></mj-section></mj-wrapper><mj-hero css-class="ka"><mj-text>h</mj-text></mj-hero></mj-body></mjml>`})
 		}
 		n := 120
 		if tier == "thorough" {
@@ -223,6 +236,7 @@ func runC06(res *Result, tier string, seed int64, replay string) {
 	// ---- (a) exhaustive fault positions ------------------------------------------------------------------------
 	var faultCases atomic.Int64
 	// sequential on purpose: concurrent in-process renders of documents with different heads interfere (C07's finding)
+	var faultTree func(d struct{ name, src string }, i int, comp mjml.Component, label string)
 	faultOne := func(i int, bodyOnly bool) {
 		d := docs[i]
 		ast, err := mjml.ParseMJML(d.src)
@@ -239,7 +253,24 @@ func runC06(res *Result, tier string, seed int64, replay string) {
 				return
 			}
 			comp = root.Body
+			// the body writes each block into a buffer of its own before it reaches the caller's writer (boundary merge), so a
+			// fault in the caller's writer never lands inside a block: render every block — and every component below it that
+			// renders on its own — directly into the failing writer as well
+			var walk func(c mjml.Component, depth int)
+			walk = func(c mjml.Component, depth int) {
+				for ci, k := range childrenOf(c) {
+					if depth < 3 && standsAlone(k) {
+						faultTree(d, i, k, fmt.Sprintf("sub%d.%d", depth, ci))
+					}
+					walk(k, depth+1)
+				}
+			}
+			walk(comp, 0)
 		}
+		faultTree(d, i, comp, fmt.Sprint(bodyOnly))
+	}
+	faultTree = func(d struct{ name, src string }, i int, comp mjml.Component, label string) {
+		bodyOnly := label
 		clean := &faultWriter{}
 		var rerr error
 		if p := safely(func() { rerr = comp.Render(clean) }); p != nil {
@@ -259,6 +290,7 @@ func runC06(res *Result, tier string, seed int64, replay string) {
 			return
 		}
 		res.Case(fmt.Sprintf("fault|%v|%s", bodyOnly, d.src), total > 10)
+		res.Count("fault-root=" + strings.SplitN(label, ".", 2)[0])
 		if i%80 == 0 {
 			res.Sample(map[string]interface{}{"kind": "writer-fault", "doc": d.name, "writes": total, "bodyOnly": bodyOnly})
 		}
@@ -645,3 +677,35 @@ func sigOf(key string) string {
 var _ = components.AllowedCSSAttributes
 
 func init() { register("C06", runC06) }
+
+// childrenOf: the Children of a component (every component embeds BaseComponent, the root keeps Head / Body)
+func childrenOf(c mjml.Component) []mjml.Component {
+	v := reflect.ValueOf(c)
+	if v.Kind() == reflect.Ptr {
+		v = v.Elem()
+	}
+	if v.Kind() != reflect.Struct {
+		return nil
+	}
+	f := v.FieldByName("Children")
+	if !f.IsValid() || f.Kind() != reflect.Slice {
+		return nil
+	}
+	var out []mjml.Component
+	for i := 0; i < f.Len(); i++ {
+		if k, ok := f.Index(i).Interface().(mjml.Component); ok && k != nil {
+			out = append(out, k)
+		}
+	}
+	return out
+}
+
+// standsAlone: components whose Render can be called directly (sub-elements need their parent to set them up first)
+func standsAlone(c mjml.Component) bool {
+	switch c.GetTagName() {
+	case "mj-section", "mj-wrapper", "mj-hero", "mj-column", "mj-group", "mj-text", "mj-button", "mj-image", "mj-divider", "mj-spacer", "mj-table",
+		"mj-accordion", "mj-navbar", "mj-social", "mj-carousel", "mj-raw":
+		return true
+	}
+	return false
+}
